@@ -183,7 +183,7 @@ pub fn property() -> Property {
     Property {
         id: "C03",
         subs: vec![sub::<Hist>()],
-        fuzz: vec![FuzzSpec { target: "sdd_ops", runs: 40000, max_len: 300 }],
+        fuzz: vec![FuzzSpec { target: "sdd_ops", runs: 6000, max_len: 300 }],
         assumptions: vec![
             "functions over <= 8 variables, <= 40 operations per history",
             "the SDD walker reads SddPtr variants, BinarySDD accessors and SddOr::iter(); truth-table oracle as in C01",
